@@ -92,6 +92,14 @@ def stringDecode (tbl : List String) (idx : List Nat) : Except Err (List String)
     | some s => .ok s
     | none => .error .indexError
 
+/-- `StringArrayEncoding(strings=tbl).encode`: the table is given (explicitly, read from a file, or left over from an
+earlier use of the same encoding object).  `searchsorted` in the sorted table, then `string_order[...]` — which is an
+`IndexError` as soon as one value is greater than every table entry — then the presence check (`ValueError`). -/
+def stringEncodeWith (tbl ss : List String) : Except Err (List Nat) :=
+  if ss.any (fun s => tbl.all (fun t => decide (t < s))) then .error .indexError
+  else if ss.all (fun s => tbl.contains s) then .ok (ss.map fun s => tbl.idxOf s)
+  else .error .valueError
+
 /-- `serialize`: concatenated strings and the offsets (prefix sums of the lengths). -/
 def stringOffsets : List String → Nat → List Nat
   | [], acc => [acc]
